@@ -1615,6 +1615,12 @@ class Gen(object):
             return ['p_wd', pid, float(cash) * rng.choice([0.0, 0.1, 0.5, 1.0, rng.random()])]
         if r < 0.55:
             a = rng.choice(assets)
+            if rng.random() < 0.07:
+                # a buy and a sell of the same size for one asset waiting in the same queue: filled in one update, the
+                # holding ends where it started (nothing is read in between)
+                q_ = rng.randint(1, 900)
+                self.queue.append(['order', pid, a, -q_, self.oid(pid)])
+                return ['order', pid, a, q_, self.oid(pid)]
             o_ = ['order', pid, a, self.qty(pid, a), self.oid(pid)]
             if rng.random() < 0.1:
                 o_.append(rng.choice([4.95, 1.0, 25.0]))      # Order(commission=...): optional argument of the public class
